@@ -202,22 +202,25 @@ class IPv6(object):
 
     def parse_line(self, line, **kwargs):
 
-        def _sub_ip(line, ip):
+        def _sub_ip(match):
+            ip = match.group(1)
+            if any(re.search(_i, ip, re.I) for _i in self._ignore_list):
+                return match.group(0)
             new_ip = self._ip2db(ip)
             if new_ip:
                 logger.debug("Obfuscating IPv6 - %s > %s", ip, new_ip)
-                return line.replace(ip, new_ip)
+                # keep what follows the address in the match (prefix length)
+                return new_ip + match.group(0)[len(ip):]
             # it's an obfuscated IP
-            return line
+            return match.group(0)
 
         if not line:
             return line
 
-        for ip in re.findall(self.pattern, line, re.I):
-            if any(re.search(_i, ip[0], re.I) for _i in self._ignore_list):
-                continue
-            line = _sub_ip(line, ip[0])
-        return line
+        # substitute every match in place, in a single pass: a chained
+        # str.replace would also rewrite an address that contains another one
+        # ("fe80::12" next to "fe80::1") and the substitutes just put in
+        return re.sub(self.pattern, _sub_ip, line, flags=re.I)
 
     def mapping(self):
         mapping = []
